@@ -194,6 +194,19 @@ def drift(ctx, exe, trees):
     """D vs C (information only): the model's prediction with the real alphabet against the real output"""
     usable = [t for t in trees if not G.tree_uses_outer_from_with(t['units'])]
     pick = vlib.sample(usable, 500 if ctx.quick() else 6000, ctx.rnd)
+    # every second tree is respelled so that declared and free names coincide with the first names the real
+    # alphabet hands out (e t n s): only then does the comparison see which names the code avoids
+    sub = {'x': 'e', 'y': 't', 'a': 'n', 'ba': 's'}
+
+    def respell(t):
+        us = []
+        for u in t['units']:
+            u = dict(u)
+            for f in ('ps', 'ls', 'vs', 'us'):
+                u[f] = [sub.get(n, n) for n in u[f]]
+            us.append(u)
+        return dict(t, units=us)
+    pick = [respell(t) if k % 2 else t for k, t in enumerate(pick)]
     cases = [dict(id=i, src=G.render_plain(t)) for i, t in enumerate(pick)]
     proj = minify_and_project(ctx, exe, cases, 'drift')
     lines, kept = [], []
